@@ -163,7 +163,7 @@ func zeroValue(t types.Type) Value {
 	case *types.Signature:
 		return FuncVal{}
 	case *types.Chan:
-		return OpaqueVal{Type: t, Tag: "nilchan"}
+		return ChanVal{}
 	case *types.Tuple:
 		v := make([]Value, u.Len())
 		for i := range v {
